@@ -623,11 +623,21 @@ func (p *Parser) parseSwitch() ast.Node {
 			isDefaultCase = true
 		} else if p.curTokenIs(token.CASE) {
 			p.nextToken() // move to the token following "case"
-			caseExprs = append(caseExprs, p.parseExpression(LOWEST))
+			expr := p.parseExpression(LOWEST)
+			if expr == nil {
+				return nil
+			}
+			caseExprs = append(caseExprs, expr)
 			for p.peekTokenIs(token.COMMA) {
 				p.nextToken() // move to the comma
 				p.nextToken() // move to the following expression
-				caseExprs = append(caseExprs, p.parseExpression(LOWEST))
+				// Once an error is recorded the parser no longer advances, so a
+				// failed expression must end the loop or it would never finish
+				expr := p.parseExpression(LOWEST)
+				if expr == nil {
+					return nil
+				}
+				caseExprs = append(caseExprs, expr)
 			}
 		} else {
 			p.setTokenError(p.curToken, "expected 'case' or 'default' (got %s)", p.curToken.Literal)
